@@ -568,12 +568,18 @@ def oracle_line(op, rep):
                 if met is False:
                     return (None, "condition %s is NOT met by the document (exact integer / IEEE comparison), but the patch was applied"
                             % ":".join(cond))
+            # success ⇒ the output is one well-formed, string-keyed msgpack value for the reference decoder too
+            # (decided before anything below can skip: a lenient real parser must not hide a malformed body)
+            try:
+                got = dec_all(out)
+            except Malformed as e:
+                fid = "C13-unvalidated-op-value" if value_malformed(ops) else None
+                return (fid, "reported success with wf=1, but the reference decoder rejects the output body %s (%s)" % (f[1], e))
             # success ⇒ the output decodes to what the documented semantics give
             try:
                 t = dec_all(body)
                 for k, p, v in ops:
                     t = ref_op(t, k, unhex(p), unhex(v))
-                got = dec_all(out)
             except Skip:
                 return None
             except RefErr as e:
@@ -631,7 +637,7 @@ def spec_violated(rep):
 def probe(ctx, drv_args):
     """Each probe line in its own memory-limited (RLIMIT_AS) `hx run` child.  Returns (crashed lines, mismatching lines)."""
     hx = os.path.join(K.BIN, "hx")
-    crashed, wrong = [], []
+    crashed, wrong, other = [], [], []
     for line, gib in PROBES:
         def limit(g=gib):
             resource.setrlimit(resource.RLIMIT_AS, (g << 30, g << 30))
@@ -640,15 +646,19 @@ def probe(ctx, drv_args):
             p = subprocess.run([hx, "run", "C13"], input=line + "\n", stdout=subprocess.PIPE, stderr=subprocess.PIPE,
                                text=True, timeout=120, preexec_fn=limit)
         except subprocess.TimeoutExpired:
-            crashed.append((line, "timeout"))
+            # not the recorded symptom (a loaded machine, or a different defect): reported separately
+            other.append((line, "no reply within 120 s"))
             continue
         out = p.stdout.strip().split("\n")[0] if p.stdout.strip() else ""
         if p.returncode != 0 or out == "":
             tail = [l for l in p.stderr.split("\n") if l.startswith("fatal error") or l.startswith("runtime:")][:2]
-            crashed.append((line, "exit %d %s" % (p.returncode, " ".join(tail))))
+            if "out of memory" in p.stderr:
+                crashed.append((line, "exit %d %s" % (p.returncode, " ".join(tail))))
+            else:
+                other.append((line, "exit %d without an out-of-memory report: %s" % (p.returncode, p.stderr.strip()[-300:])))
         elif model and out != model[0].split("\t")[0]:
             wrong.append((line, out, model[0]))
-    return crashed, wrong
+    return crashed, wrong, other
 
 
 # ------------------------------------------------------------------ check
@@ -715,11 +725,16 @@ def run(ctx):
         break
     # allocation probe
     pid_f = "C13-prealloc-untrusted-count"
-    crashed, wrong = ([], [])
+    crashed, wrong, other = ([], [], [])
     if corrs and not c.err:
-        crashed, wrong = probe(ctx, args)
+        crashed, wrong, other = probe(ctx, args)
+        if other:   # once more: a child that died or stalled for another reason than memory may be a loaded machine
+            crashed, wrong, other = probe(ctx, args)
         ctx.cov["alloc_probe"] = {"lines": [l for l, _ in PROBES], "crashed": [l for l, _ in crashed],
-                                  "limit": "RLIMIT_AS 2-4 GiB per child"}
+                                  "other_failures": other, "limit": "RLIMIT_AS 2-4 GiB per child"}
+        for line, why in other[:1]:
+            ctx.violation("allocation probe: the child gave no reply, but not with the recorded out-of-memory symptom: " + why,
+                          {"ops": [line], "impl": ["<%s>" % why]}, tag="probe", found_input=False)
         if crashed:
             if pid_f in known:
                 ctx.known_hits.append((pid_f, FINDINGS[pid_f]))
